@@ -121,7 +121,8 @@ def check_c12(rep, tier):
                                       f"answer {out}", replay_ops=[op])
                     else:
                         exp = ans.get("spec_play %s %s" % (s, f4))
-                        if core.fen4(out[0][3:]) != exp:
+                        # which move was played = placement and side (rights/ep bookkeeping is C02's abstraction)
+                        if exp is None or out[0][3:].split()[:2] != exp.split()[:2]:
                             rep.violation("impl-vs-spec", f"`position … moves {s}` played a different move @ {f4}",
                                           f"engine {out[0][3:]} rules {exp}", replay_ops=[op])
                 else:
